@@ -10,9 +10,15 @@ SPEC = dict(
          "plus the limits thin rod (collinear points), disc (coplanar points) and single point mass; random proper rotations, "
          "shift vectors 0.1..3, spatial vectors 0.1..5, transforms with and without translation; double and float (1/4); "
          "validity stream: negative moments, triangle-inequality violations by 1e-6..1 relative, product violations, "
-         "rod / zero limits, and a probe stream of matrices satisfying every coded condition; SpatialAlgebra.h shift / "
+         "rod / zero limits, NaN in each slot, a slop-boundary stream (each of the 6 inequalities violated by 0.1/0.5/2/10 x slop, "
+         "trace < 1 and > 1, double and float) and a probe stream of matrices satisfying every coded condition; SpatialAlgebra.h shift / "
          "relative-velocity / PhiMatrix operators (double); distinct = distinct input records",
-    partial=None,
+    partial="the clause 'every accepted inertia is positive semi-definite' is FALSE for the code (known finding "
+            "isValidInertiaMatrix.accepted.psd, theorem accepted_not_psd); it is proved only for inertias built from "
+            "nonnegative point masses (cloud_accepted_and_psd).  Rejection is proved for the coded necessary conditions only "
+            "(negative moment, triangle inequality, product bound, each beyond the slop): a matrix that is invalid only because "
+            "it is not PSD is accepted.  NaN rejection and float validity are predicate-only; MassProperties with mass == 0 and "
+            "Inertia_(Mat33) are not covered; in this release build no constructor checks anything (errChk compiled out)",
     assumptions=[
         "release build (NDEBUG): Inertia_::errChk and SimTK_ERRCHK are compiled out, so constructors reject nothing; "
         "the rejection clause is checked on the public static Inertia_::isValidInertiaMatrix only",
